@@ -14,7 +14,7 @@ func TestProps(t *testing.T) {
 	// a self-referential type dies in a fraction of a second instead of after eating 1 GiB.
 	debug.SetMaxStack(64 << 20)
 	selfTest(t)
-	harness.Main(t, "C09", Values, Bytes, Static, Big, Concurrent)
+	harness.Main(t, "C09", Values, Bytes, Static, Wide, Big, Concurrent)
 	if os.Getenv("VERIF_C09_DEBUG") != "" {
 		fmt.Printf("C09-DEBUG max alloc/bound: unmarshal %.3f marshal %.3f\n", debugMaxU, debugMaxM)
 	}
